@@ -387,7 +387,7 @@ package godi
 //@        && (callret("atomic.Load:disposed", ncalls("atomic.Load:disposed") - 1, 0, "int32") == 0 ==> result0 == callret("scope.construct", 0, 0) && result1 == nil)
 //@   ensures[C15] error_means_no_value: result1 != nil ==> result0 == nil
 // a resolution that waited for a construction is a resolution whose construction overlaps Close, like the constructing one (C13)
-//@   at before return#5 : assert[C13] a_waiter_overlapping_close_reports_the_disposed_error: ncalls("atomic.Load:disposed") >= 1 && callret("atomic.Load:disposed", ncalls("atomic.Load:disposed") - 1, 0, "int32") == 0
+//@   at before return#6 : assert[C13] a_waiter_overlapping_close_reports_the_disposed_error: ncalls("atomic.Load:disposed") >= 1 && callret("atomic.Load:disposed", ncalls("atomic.Load:disposed") - 1, 0, "int32") == 0
 // every announcement made by this call is withdrawn again by this call: by construct, or by release when the cache had the instance meanwhile
 //@   ensures[C02,C15] every_announcement_is_withdrawn: ncalls("scope.release") + ncalls("scope.construct") <= 1
 //@   at before call s.creatingMu.Unlock#1 : assert[C02] construction_is_announced_under_the_lock_before_it_runs: s.creating != nil && (id in s.creating) && s.creating[id] == call && !busy && ncalls("scope.construct") == 0 && ncalls("scope.release") == 0
@@ -664,21 +664,26 @@ package godi
 //@   safety[C15,C13,C09]
 //@   requires args: s != nil && s.rootProvider != nil && s.rootProvider.analyzer != nil
 //@   ghost inits []*Descriptor
+//@   ghost ran set[int]
 //@   at before loop 1 : ghost inits := initializers
+//@   at before call s.createInstance#1 : ghost ran[idx] := true
 //@   ensures[C02,C08,C18] initializer_phase_always_runs: ncalls("provider.voidReturnScopedDescriptorsMu.RLock") == 1 && callarg("provider.voidReturnScopedDescriptorsMu.RLock", 0, 0) == old(s.rootProvider)
-//@   ensures[C02] initializers_once_in_order: result == nil ==> ncalls("scope.createInstance") == len(inits)
-//@        && (forall i int :: 0 <= i && i < len(inits) ==> callarg("scope.createInstance", i, 0) == s && callarg("scope.createInstance", i, 1) == inits[i])
-// C02 'initializer functions that return nothing run exactly once, when the scope is created': an initializer that another initializer has
-// already pulled in through its marker must not be run again, so the loop goes through the scope's cache (resolve), never straight to createInstance
-//@   ensures[C02] each_initializer_runs_exactly_once: ncalls("scope.createInstance") == 0
+// C02 'initializer functions that return nothing run exactly once, when the scope is created': every initializer is looked up in the scope's cache
+// first, in order; it is run by this loop exactly when its marker is not there yet (an earlier initializer that depends on it has run it already otherwise)
+//@   ensures[C02] each_initializer_runs_exactly_once: result == nil ==> ncalls("scope.instancesMu.RLock") == len(inits) && ncalls("scope.createInstance") <= len(inits)
+//@   ensures[C02] initializers_in_order: forall a int, b int :: 0 <= a && a < b && b < ncalls("scope.createInstance") ==> calltime("scope.createInstance", a) < calltime("scope.createInstance", b)
+//@   ensures[C02,C18] initializers_run_in_this_scope: forall c int :: 0 <= c && c < ncalls("scope.createInstance") ==> callarg("scope.createInstance", c, 0) == s
+//@        && (exists i int :: 0 <= i && i < len(inits) && ran[i] && callarg("scope.createInstance", c, 1) == inits[i])
 //@   ensures[C15] init_failure_is_classifiable: result != nil ==> typeis(result, "*ResolutionError") && ncalls("scope.createInstance") >= 1
 //@        && wraps(as(result, "*ResolutionError").Cause, callret("scope.createInstance", ncalls("scope.createInstance") - 1, 1))
 //@   ensures[C10,C14] failed_creation_is_cleaned_up: result != nil ==> ncalls("scope.Close") == 1 && callarg("scope.Close", 0, 0, "*scope") == s
 //@   ensures[C10,C14] success_closes_nothing: result == nil ==> ncalls("scope.Close") == 0
+//@   at before call s.createInstance#1 : assert[C02] not_run_yet_according_to_the_cache: !done
 //@   loop 1
-//@     invariant progress: ncalls("scope.createInstance") == idx && s != nil && ncalls("scope.Close") == 0 && initializers == inits
+//@     invariant progress: ncalls("scope.instancesMu.RLock") == idx && ncalls("scope.createInstance") <= idx && s != nil && ncalls("scope.Close") == 0 && initializers == inits
 //@     invariant inits_nonnil: forall i int :: 0 <= i && i < len(initializers) ==> initializers[i] != nil
-//@     invariant in_order: forall i int :: 0 <= i && i < idx ==> callarg("scope.createInstance", i, 0) == s && callarg("scope.createInstance", i, 1) == inits[i] && callret("scope.createInstance", i, 1) == nil
+//@     invariant in_this_scope: forall c int :: 0 <= c && c < ncalls("scope.createInstance") ==> callarg("scope.createInstance", c, 0) == s && callret("scope.createInstance", c, 1) == nil
+//@        && (exists i int :: 0 <= i && i < idx && ran[i] && callarg("scope.createInstance", c, 1) == inits[i])
 //
 //@ func newScope
 //@   mode conc
